@@ -19,14 +19,14 @@ import time
 
 VERIF = os.path.dirname(os.path.dirname(os.path.abspath(__file__)))
 REPO = os.environ.get("FERROUS_REPO", "/repo")
-LEAN = os.path.join(VERIF, "lean")
-CACHE = os.path.join(VERIF, ".cache")
+LEAN = os.environ.get("VERIF_LEAN", os.path.join(VERIF, "lean"))
+CACHE = os.environ.get("VERIF_CACHE", os.path.join(VERIF, ".cache"))
 HARNESS = os.path.join(VERIF, "harness")
 LEAN_BIN = os.path.join(LEAN, ".lake", "build", "bin")
 IMPL_BIN = os.path.join(CACHE, "target-harness", "debug")
 SERVER_BIN = os.path.join(CACHE, "target-bin", "debug", "ferrous")
-REPLAYS = os.path.join(VERIF, "replays")
-EVIDENCE = os.path.join(VERIF, "evidence")
+REPLAYS = os.environ.get("VERIF_REPLAYS", os.path.join(VERIF, "replays"))
+EVIDENCE = os.environ.get("VERIF_EVIDENCE", os.path.join(VERIF, "evidence"))
 ALLOWED_AXIOMS = {"propext", "Classical.choice", "Quot.sound"}
 
 ENV = dict(os.environ)
@@ -230,15 +230,29 @@ def audit_axioms(prop_id, names):
 
 
 def build_harness(family):
-    """The in-process implementation driver `impl_<family>` against /repo's working tree."""
+    """The in-process implementation driver `impl_<family>` against the working tree of REPO.
+
+    Normally REPO is /repo and the crate in /verif/harness is built as it is.  When FERROUS_REPO points
+    elsewhere (a scratch worktree with a seeded change, so that /repo itself stays untouched while other
+    work goes on) a copy of the crate with the path dependency rewritten is built into the alternative cache."""
     with BuildLock("cargo-harness"):
+        src_dir = HARNESS
+        if os.path.realpath(REPO) != "/repo":
+            src_dir = os.path.join(CACHE, "harness-copy")
+            if os.path.exists(src_dir):
+                shutil.rmtree(src_dir)
+            shutil.copytree(HARNESS, src_dir, ignore=shutil.ignore_patterns("target"))
+            ct = os.path.join(src_dir, "Cargo.toml")
+            open(ct, "w").write(open(ct).read().replace('path = "/repo"', 'path = "%s"' % os.path.realpath(REPO)))
+            shutil.copy(os.path.join(REPO, "Cargo.lock"), os.path.join(src_dir, "Cargo.lock"))
         lock_src = os.path.join(REPO, "Cargo.lock")
-        lock_dst = os.path.join(HARNESS, "Cargo.lock")
+        lock_dst = os.path.join(src_dir, "Cargo.lock")
         if not os.path.exists(lock_dst):
             shutil.copy(lock_src, lock_dst)
-        rc, out = run(["cargo", "build", "--offline", "--quiet", "--bin", "impl_" + family], cwd=HARNESS)
+        rc, out = run(["cargo", "build", "--offline", "--quiet", "--bin", "impl_" + family,
+                       "--target-dir", os.path.join(CACHE, "target-harness")], cwd=src_dir)
     if rc != 0:
-        raise InternalError("harness does not build against /repo:\n" + out[-4000:])
+        raise InternalError("harness does not build against %s:\n%s" % (REPO, out[-4000:]))
 
 
 def build_server():
